@@ -55,6 +55,10 @@ func (p ShortMessage) WriteTo(w io.Writer) (n int64, err error) {
 	}
 	buf.Write(p.Message)
 	data := buf.Bytes()
+	if len(data)-1-start > 0xFF {
+		err = ErrShortMessageTooLarge
+		return
+	}
 	data[start] = byte(len(data) - 1 - start)
 	return buf.WriteTo(w)
 }
